@@ -48,6 +48,29 @@ def call(ex, st, e):
 
 
 def dispatch(ex, st, f, args, kwargs, node):
+    if ex.total and isinstance(f, Const) and f.kind in ("builtin", "type", "datamethod", "specident"):
+        # ill-kinded operations inside total (spec / clause) evaluation sit in dead branches:
+        # they denote an unspecified value
+        try:
+            res = list(_dispatch(ex, st, f, args, kwargs, node))
+        except _UnsupportedType() as u:
+            if all(isinstance(a, V) for a in args):
+                ex.partial_touched = True
+                nm = f.val if isinstance(f.val, str) else f.val[1]
+                res = [(st, V("py", ex.eng.opaque_fn("junk_call_" + str(nm), *[box(a) for a in args])))]
+            else:
+                raise
+        yield from res
+        return
+    yield from _dispatch(ex, st, f, args, kwargs, node)
+
+
+def _UnsupportedType():
+    from .engine import Unsupported
+    return Unsupported
+
+
+def _dispatch(ex, st, f, args, kwargs, node):
     eng = ex.eng
     if not isinstance(f, Const):
         if isinstance(f, V) and f.ty == "none":
@@ -66,6 +89,18 @@ def dispatch(ex, st, f, args, kwargs, node):
         if kwargs:
             raise _U("spec kwargs")
         yield st, f.val.apply(args)
+    elif k == "specident" and f.val == "dset":
+        d = ex.narrow(st, args[0])
+        dt = d.t if d.ty in ("dict", "py") else None
+        if dt is None:
+            raise _U("dset on non-dict")
+        yield st, V("dict", S.dict_set(dt, box(args[1]), box(args[2])))
+    elif k == "specident" and f.val == "seq_items":
+        d = ex.narrow(st, args[0])
+        if d.ty in ("list", "tuple"):
+            yield st, V("list", d.t)
+        else:
+            yield st, V("list", py_items(box(d)))
     elif k == "specident":
         a = ex.narrow(st, args[0])
         src, dst = SP_IDENT[f.val]
@@ -125,8 +160,10 @@ def builtin(ex, st, name, args, kwargs, node):
             yield st, S.mk_int(len(v.val))
             return
         if v.ty in ("str", "bytes", "list", "tuple", "set"):
+            _len_bound(ex, st, z3.Length(v.t))
             yield st, V("int", z3.Length(v.t))
         elif v.ty == "dict":
+            _len_bound(ex, st, z3.Length(S.dkeys(v.t)))
             yield st, V("int", z3.Length(S.dkeys(v.t)))
         elif v.ty == "py":
             t = v.t
@@ -135,10 +172,13 @@ def builtin(ex, st, name, args, kwargs, node):
                 if r is not None:
                     yield st1, r
                 else:
+                    _len_bound(ex, st1, pylen(t))
                     yield st1, V("int", pylen(t))
         else:
             if ex.total:
-                raise _U(f"len of {v.ty}")
+                ex.partial_touched = True
+                yield st, V("int", Py.i(eng.opaque_fn("junk_len", box(v))))
+                return
             yield st, _R("TypeError", "len")
         return
     if name == "isinstance":
@@ -258,6 +298,11 @@ def builtin(ex, st, name, args, kwargs, node):
         if v.ty == "dict":
             yield st, V(name, S.dkeys(v.t))
             return
+        if v.ty == "py":
+            ok = z3.Or(Py.is_list(v.t), Py.is_tuple(v.t), Py.is_dict(v.t), Py.is_set(v.t))
+            for st1, r in ex.need(st, ok, "TypeError", f"{name}()"):
+                yield st1, (r if r is not None else V(name, py_items(v.t)))
+            return
         raise _U(f"{name}({v.ty})")
     if name == "set":
         if not args:
@@ -328,12 +373,23 @@ def builtin(ex, st, name, args, kwargs, node):
     raise _U(f"builtin {name}")
 
 
+def _len_bound(ex, st, ln):
+    """CPython: the length of any container fits Py_ssize_t (assumed, listed in evidence)"""
+    if not ex.total:
+        ex.eng.assumptions_used.add("len(x) <= 2**63 - 1 for every container (Py_ssize_t)")
+        st.assume(ln <= 2 ** 63 - 1)
+
+
+def py_items(t):
+    """item sequence of a dynamically typed iterable (list / tuple / dict keys / set)"""
+    if z3.is_app(t):
+        if t.decl().eq(Py.list) or t.decl().eq(Py.tuple) or t.decl().eq(Py.set):
+            return t.arg(0)
+    return S.PYITEMS(t)
+
+
 def pylen(t):
-    return z3.If(Py.is_str(t), z3.Length(Py.s(t)),
-           z3.If(Py.is_bytes(t), z3.Length(Py.bs(t)),
-           z3.If(Py.is_list(t), z3.Length(Py.items(t)),
-           z3.If(Py.is_tuple(t), z3.Length(Py.titems(t)),
-           z3.If(Py.is_dict(t), z3.Length(Py.keys(t)), z3.Length(Py.elems(t)))))))
+    return S.PYLEN(t)
 
 
 # ------------------------------------------------------------ repo functions
